@@ -345,6 +345,20 @@ func (i *interpreter) symConv(dst *types.Basic, x symv) value {
 		return mkval(ts.IntToFP(x.t, ssigned), dk)
 	case x.k == types.Float64 && isIntKind(dk):
 		dw, dsigned := kindWidth(dk)
+		if r, ok := i.abstractScaledInt(x.t, dw, dsigned); ok {
+			return mkval(r, dk)
+		}
+		if x.t.op == "to_fp_s" && dsigned && x.t.args[0].sort.Width == dw && dw == 64 {
+			// int64(float64(a)) == a whenever |a| ≤ 2^53 (float64 is exact
+			// there): rewrite if the path condition implies the range (one
+			// bit-vector query), which removes floating point from the rest
+			// of the path
+			a := x.t.args[0]
+			out := ts.Or(ts.BVCmp("bvslt", a, ts.BV(^uint64(1<<53)+1, 64)), ts.BVCmp("bvsgt", a, ts.BV(1<<53, 64)))
+			if res, _ := i.path.w.solver.Check(i.path.pc, []*Term{out}, nil); res == Unsat {
+				return mkval(a, dk)
+			}
+		}
 		return mkval(ts.FPToInt(x.t, dw, dsigned), dk)
 	case x.k == types.Float64 && dk == types.Float64:
 		return x
